@@ -508,7 +508,7 @@ class TokenEncoder:
                 raise pending_error
             stropped = self._encoding_failure_handler(self, stropped, token_type, pending_error)
 
-        return stropped
+        return self._verify_handled(stropped, token_type_lower)
 
     # +----------------------------------------------------------------------------------------------------------------+
     # | Language CONFIGURATION HELPERS
@@ -704,3 +704,12 @@ class TokenEncoder:
         map_of_list_of_patterns["any"] = any_patterns
 
         return map_of_list_of_patterns
+
+    def _verify_handled(self, stropped: str, token_type: str) -> str:
+        """
+        Whatever the language-specific failure handlers returned is verified once more, this time without any handler:
+        strop never returns a token that is reserved or needs encoding, it raises RuntimeError instead.
+        """
+        for rule in (self._strop_by_pattern, self._strop_by_keyword, self._encode):
+            self._do_for_type_and_all(rule, stropped, token_type, True)
+        return stropped
